@@ -1,4 +1,5 @@
 import HpxVerif.Props.C02
+import HpxVerif.Lemmas.HashReal3
 
 /-!
 # C01 — NESTED hash is total, in range, and returns a cell that contains the point
@@ -11,9 +12,10 @@ included):
 * `backend_range`: for every pair of small bit patterns whose scaled truncations do not exceed `nside` (the code's own
   debug assertion), the cell number is `< 12·4^depth`, for every depth `1..29`; `hash_range` is the same for `hash_v2`
   at `Float`.
-Open statement (`hash_real_contains`): over the reals the returned cell's closed diamond contains the projected point —
-the seam inequalities; validated by the bit-exact correspondence (40 % of the positions on seams) and the
-point-in-diamond oracle against an independent projection.
+**Over the reals (`hash_real_contains`)**: for every depth, latitude and `|lon| < 64π` the returned cell's closed diamond
+contains the projected point — all seam inequalities, the quarter reduction for both signs of the longitude, the clamp —
+with respect to the crate's own `proj`, and (`hash_real_contains_spec_partial`) with respect to an independent statement
+of the Calabretta & Roukema projection outside negative-longitude cap seams (`seam_convention` says what happens there).
 Not carried by proof: the rounding of libm and of the four products/sums of the front end.
 -/
 
@@ -81,5 +83,69 @@ theorem hash_range (cfg : Cfg) (hbmi : cfg.bmi = false) (lon lat : Float) (d c :
   split at h
   · cases h
   · exact backend_range cfg hbmi d _ _ _ c hd1 hd (frontend_base_cell_lt_12 lon lat) hi hj h
+
+/-! ## containment over the reals: every seam and branch decision -/
+
+open Hpx.HashReal in
+/-- **`hash_real_contains`** — the model of `hash_v2` instantiated at ℝ (exact arithmetic, `sin`/`cos` the real functions):
+    for every depth `≤ 32`, every latitude in `[−π/2, π/2]` and every longitude with `|lon| < 64π`, the front end yields a
+    base cell `< 12`, the two clamped truncations are grid coordinates `< 2^depth`, and the point projected by the crate's
+    own `proj` (abscissa modulo 8) lies in the closed diamond of the cell `(d0h, i, j)`.  Every seam is decided here:
+    `>` against `≥` in the `q01`/`q12` selection, the strict `lat > TRANSITION_LATITUDE`, the negative-longitude quarter
+    `3 − (q >> 1)`, the clamp at `i = nside` (reached exactly when `h + l = 2`), depth 0. -/
+theorem hash_real_contains (d : ℕ) (hd : d ≤ 32) (lon lat : ℝ) (hlon : |lon| < 64 * Real.pi)
+    (hl1 : -(Real.pi / 2) ≤ lat) (hl2 : lat ≤ Real.pi / 2) :
+    ∃ X Y : ℝ, Proj.proj (α := ℝ) lon lat = some (X, Y) ∧
+      (Hash.d0hLhInD0c (α := ℝ) lon lat).1 < 12 ∧
+      gridCoord d ((Hash.d0hLhInD0c (α := ℝ) lon lat).2.2 + (Hash.d0hLhInD0c (α := ℝ) lon lat).2.1) < 2 ^ d ∧
+      gridCoord d ((Hash.d0hLhInD0c (α := ℝ) lon lat).2.2 - (Hash.d0hLhInD0c (α := ℝ) lon lat).2.1) < 2 ^ d ∧
+      ∃ m : ℤ, InDiamond d (Hash.d0hLhInD0c (α := ℝ) lon lat).1
+        (gridCoord d ((Hash.d0hLhInD0c (α := ℝ) lon lat).2.2 + (Hash.d0hLhInD0c (α := ℝ) lon lat).2.1))
+        (gridCoord d ((Hash.d0hLhInD0c (α := ℝ) lon lat).2.2 - (Hash.d0hLhInD0c (α := ℝ) lon lat).2.1))
+        (X + 8 * (m : ℝ)) Y :=
+  Hpx.HashReal.hash_real_contains d hd lon lat hlon hl1 hl2
+
+open Hpx.HashReal in
+/-- `hash_v2` at ℝ is `build_hash_from_parts` of exactly those parts (so the theorem above is about the cell number
+    returned; `zoc_lut_correct`, C18, turns the parts into `d0h·4^d + interleave i j`) -/
+theorem hash_real_parts (cfg : Cfg) (d : ℕ) (lon lat : ℝ) (hchk : Proj.checkLat (α := ℝ) lat = true) :
+    Hash.hashV2 (α := ℝ) cfg d lon lat =
+      Layer.buildHashFromParts cfg d (Hash.d0hLhInD0c (α := ℝ) lon lat).1
+        (gridCoord d ((Hash.d0hLhInD0c (α := ℝ) lon lat).2.2 + (Hash.d0hLhInD0c (α := ℝ) lon lat).2.1))
+        (gridCoord d ((Hash.d0hLhInD0c (α := ℝ) lon lat).2.2 - (Hash.d0hLhInD0c (α := ℝ) lon lat).2.1)) :=
+  hashV2_real_eq cfg d lon lat hchk
+
+open Hpx.HashReal in
+/-- the same against an **independent statement of the Calabretta & Roukema projection** (`projSpecXY`), for every
+    position except negative longitudes lying exactly on a polar-cap seam (`lon = −kπ/2`, `|sin lat| > 2/3`), where the
+    plane image of the point is on the other side of the gap of the interrupted projection (see `seam_convention`) -/
+theorem hash_real_contains_spec_partial (d : ℕ) (hd : d ≤ 32) (lon lat : ℝ) (hlon : |lon| < 64 * Real.pi)
+    (hl1 : -(Real.pi / 2) ≤ lat) (hl2 : lat ≤ Real.pi / 2)
+    (hseam : 0 ≤ lon ∨ |Real.sin lat| ≤ 2 / 3 ∨ ∀ z : ℤ, lon ≠ (z : ℝ) * (Real.pi / 2)) :
+    (Hash.d0hLhInD0c (α := ℝ) lon lat).1 < 12 ∧
+      gridCoord d ((Hash.d0hLhInD0c (α := ℝ) lon lat).2.2 + (Hash.d0hLhInD0c (α := ℝ) lon lat).2.1) < 2 ^ d ∧
+      gridCoord d ((Hash.d0hLhInD0c (α := ℝ) lon lat).2.2 - (Hash.d0hLhInD0c (α := ℝ) lon lat).2.1) < 2 ^ d ∧
+      ∃ m : ℤ, InDiamond d (Hash.d0hLhInD0c (α := ℝ) lon lat).1
+        (gridCoord d ((Hash.d0hLhInD0c (α := ℝ) lon lat).2.2 + (Hash.d0hLhInD0c (α := ℝ) lon lat).2.1))
+        (gridCoord d ((Hash.d0hLhInD0c (α := ℝ) lon lat).2.2 - (Hash.d0hLhInD0c (α := ℝ) lon lat).2.1))
+        ((projSpecXY lon lat).1 + 8 * (m : ℝ)) (projSpecXY lon lat).2 :=
+  Hpx.HashReal.hash_real_contains_spec_partial d hd lon lat hlon hl1 hl2 hseam
+
+open Hpx.HashReal in
+/-- what happens on the excluded set: on a north-cap seam `hash` is not 2π-periodic (`lon = −π/2` goes to base cell 2,
+    `lon = 3π/2` to base cell 3).  Both closed cells contain the point on the sphere — the seam is their common border —
+    so this is a border convention, not a violation of the property (containment w.r.t. the crate's own projection is
+    `hash_real_contains`, with no exclusion). -/
+theorem seam_convention (lat : ℝ) (hN : Real.arcsin (2 / 3) < lat) :
+    (Hash.d0hLhInD0c (α := ℝ) (-(Real.pi / 2)) lat).1 = 2 ∧ (Hash.d0hLhInD0c (α := ℝ) (3 * Real.pi / 2) lat).1 = 3 :=
+  seam_not_periodic lat hN
+
+open Hpx.HashReal in
+/-- the longitude bound is sharp: at `|lon|·4/π ≥ 256` the `as u8` cast saturates and the grid coordinate leaves the
+    base cell (outside the property's quantifier "within a few turns", recorded for completeness) -/
+theorem lon_bound_is_sharp (d : ℕ) (hd1 : 1 ≤ d) (hd : d ≤ 31) :
+    ¬ gridCoord d ((Hash.d0hLhInD0c (α := ℝ) (129 * Real.pi / 2) 0).2.2 +
+        (Hash.d0hLhInD0c (α := ℝ) (129 * Real.pi / 2) 0).2.1) < 2 ^ d :=
+  lon_saturation_counterexample d hd1 hd
 
 end Hpx.C01
